@@ -44,6 +44,7 @@ type c15Case struct {
 	BSelector   bool     // new template has nodeSelector tier=a
 	BExclude    bool     // new template has a required affinity term with BOTH an expression (zone exists) and a field requirement (metadata.name NotIn [n00]): n00 is not eligible
 	Prev        []string // previously selected names (may be stale / duplicated / nonexistent)
+	PrevOtherRS bool     // the previous list was recorded for an earlier canary replica set (the template was edited again while the canary ran): the list stays, only the name changes
 	F13Excluded bool
 }
 
@@ -52,7 +53,7 @@ func (k c15Case) String() string {
 	for _, n := range k.Nodes {
 		ns = append(ns, fmt.Sprintf("%s{zone=%s rack=%s tier=%s tainted=%v restarts=%d twoPods=%v namesakeRestarts=%d}", n.Name, n.Zone, n.Rack, n.Tier, n.Tainted, n.Restarts, n.TwoPods, n.Foreign))
 	}
-	return fmt.Sprintf("replicas=%s selector=%v(form %d) keys=%v newTemplate{tolerates=%v selector=%v excludesN00=%v} prev=%v nodes=[%s]", k.Replicas, k.Selector, k.SelForm, k.Keys, k.BTolerates, k.BSelector, k.BExclude, k.Prev, strings.Join(ns, " "))
+	return fmt.Sprintf("replicas=%s selector=%v(form %d) keys=%v newTemplate{tolerates=%v selector=%v excludesN00=%v} prev=%v(of an earlier canary set: %v) nodes=[%s]", k.Replicas, k.Selector, k.SelForm, k.Keys, k.BTolerates, k.BSelector, k.BExclude, k.Prev, k.PrevOtherRS, strings.Join(ns, " "))
 }
 
 func c15Template(k c15Case) corev1.PodTemplateSpec {
@@ -103,6 +104,9 @@ func c15Draw(rt *rapid.T) c15Case {
 	// distinct names: the list is only ever written by the controller, which never lists a node twice
 	for _, i := range rapid.SliceOfNDistinct(rapid.IntRange(0, 11), np, np, func(i int) int { return i }).Draw(rt, "prev") {
 		k.Prev = append(k.Prev, fmt.Sprintf("n%02d", i))
+	}
+	if np > 0 {
+		k.PrevOtherRS = rapid.IntRange(0, 2).Draw(rt, "prevOfEarlierCanary") == 0
 	}
 	return k
 }
@@ -196,6 +200,9 @@ func runC15(k c15Case) (vs []mon.V, classes []string, err error) {
 	if len(k.Prev) > 0 {
 		c.MutateEDS("ns1", "foo", func(x *edsv1.ExtendedDaemonSet) {
 			x.Status.Canary = &edsv1.ExtendedDaemonSetStatusCanary{ReplicaSet: target, Nodes: append([]string(nil), k.Prev...)}
+			if k.PrevOtherRS {
+				x.Status.Canary.ReplicaSet = "foo-earliercanary"
+			}
 		})
 	}
 	rec := c.Reconcile(sim.ActorEDS, "ns1", "foo")
@@ -408,7 +415,7 @@ func runC15(k c15Case) (vs []mon.V, classes []string, err error) {
 }
 
 func TestC15Selection(t *testing.T) {
-	rec := evid.New("TestC15Selection", "C15", "node population (0-10 nodes; canary selector label, 1-2 anti-affinity labels, taint, restart count of the active pod) x replicas int/percent x canary nodeSelector x anti-affinity keys x new template (tolerates taint / has nodeSelector) x previously selected list (valid, stale, nonexistent; distinct), one EDS reconcile; oracle = validity, stability, count, spread and least-restarts preference; non-trivial = percent replicas, or a stale/duplicate previous entry, or >=2 anti-affinity values, or differing restart counts; distinct by case rendering")
+	rec := evid.New("TestC15Selection", "C15", "node population (0-10 nodes; canary selector label, 1-2 anti-affinity labels, taint, restart count of the active pod) x replicas int/percent x canary nodeSelector x anti-affinity keys x new template (tolerates taint / has nodeSelector) x previously selected list (valid, stale, nonexistent; distinct; recorded for this canary replica set or for an earlier one of the same canary), one EDS reconcile; oracle = validity, stability, count, spread and least-restarts preference; non-trivial = percent replicas, or a stale/duplicate previous entry, or >=2 anti-affinity values, or differing restart counts; distinct by case rendering")
 	t.Cleanup(func() {
 		if !t.Failed() {
 			rec.Done()
